@@ -16,7 +16,7 @@ CONF = {
  "C04": {"gen": ["Operators", "EvalDispatch"], "streams": [("render-gen", "class"), ("render-struct", "class")],
          "assume": ["struct / method / func values of the Go universe are outside the model: their matrices are decided by the oracle only",
                     "self-referential data and unbounded recursion exhaust the Go stack (fatal, not a panic): not generated"]},
- "C05": {"gen": ["Operators"], "streams": [("render-gen", "full")], "assume": []},
+ "C05": {"gen": ["Operators", "EvalDispatch"], "streams": [("render-gen", "full")], "assume": []},
  "C06": {"gen": ["Precedences", "Operators", "ParseFns"], "streams": [("parse-tok", "full"), ("render-gen", "full")],
          "assume": ["float64 values are exact dyadic rationals in the model; regexp (~=) is outside the model",
                     "known finding: a bool left operand coerces the right one (true + 1); pinned by the repository's own test Test_Render_Bool_Concat"]},
@@ -26,7 +26,7 @@ CONF = {
  "C10": {"gen": ["HelperKeys"], "streams": [("ctx-hist", "full")], "assume": []},
  "C11": {"gen": ["EvalDispatch"], "streams": [("parse-tok", "full"), ("render-struct", "full")],
          "assume": ["PARTIAL: struct fields and pointers are modelled (Val.struct / Val.ptr, stream render-struct); methods, embedded structs and the index-then-member rebinding are reflected Go behaviour outside the model: for them navigation is decided by the oracle (self-describing data)"]},
- "C12": {"gen": [], "streams": [("render-gen", "full"), ("render-struct", "full")], "assume": ["the signature family of the model is the harness' closed helper family; the full signature product is enumerated by the oracle"]},
+ "C12": {"gen": ["EvalDispatch"], "streams": [("render-gen", "full"), ("render-struct", "full")], "assume": ["the signature family of the model is the harness' closed helper family; the full signature product is enumerated by the oracle"]},
  "C13": {"gen": ["ConcFacts"], "streams": [("render-gen", "full")],
          "assume": ["PARTIAL by nature: Go's map-order randomisation is quantified over (any permutation) in the model and sampled (r repetitions) by the oracle"]},
  "C14": {"gen": ["ConcFacts"], "streams": [],
@@ -34,7 +34,7 @@ CONF = {
                     "data races inside user-supplied helpers are outside the property"], "race": True},
  "C15": {"gen": [], "streams": [("lex-tok", "full"), ("parse-tok", "full"), ("render-gen", "full")],
          "assume": ["known findings: a statement that starts on a later line than its tag opener is reported with the statement's line"]},
- "C16": {"gen": [], "streams": [("render-gen", "full")], "assume": []},
+ "C16": {"gen": ["EvalDispatch"], "streams": [("render-gen", "full")], "assume": []},
  "C17": {"gen": [], "streams": [("render-gen", "full")], "assume": ["jsEscape of non-ASCII text depends on unicode.IsPrint (not modelled; unsupported in the model)"]},
  "C18": {"gen": ["CharClasses", "Keywords"], "streams": [("lex-tok", "full"), ("parse-tok", "full"), ("lex-nul", "full")], "assume": []},
  "C19": {"gen": ["Iterators", "HelperKeys"], "streams": [("render-gen", "full")], "assume": ["groupBy's reflective slicing is modelled on lists (tied by render-gen and the oracle)"]},
